@@ -329,8 +329,8 @@ func ruleQRFormulas(c *Ctx) {
 		eachInstr(fn, func(b *ssa.BasicBlock, ins ssa.Instruction) {
 			if call, ok := ins.(*ssa.Call); ok && call.Common().Value == ssa.Value(setP) {
 				calls = append(calls, call)
-				if phi, _, ok := loopCounter(b.Preds[0]); ok {
-					n.Bind[phi] = "i"
+				if idx, _, _, ok := loopIndex(b.Preds[0]); ok {
+					n.Bind[idx] = "i"
 				}
 			}
 		})
@@ -339,8 +339,8 @@ func ruleQRFormulas(c *Ctx) {
 		} else {
 			// loop: i from 0 while i < len(bits)
 			hdr := calls[0].Block().Preds[0]
-			if phi, init, ok := loopCounter(hdr); ok {
-				n.Bind[phi] = "i"
+			if idx, phi, init, ok := loopIndex(hdr); ok {
+				n.Bind[idx] = "i"
 				c.Check(R7, "qr.drawVersionInfo/loop-init", phi.Pos(), init == 0, "i starts at 0", fmt.Sprint(init))
 				c.expectCond(R7, "qr.drawVersionInfo/loop-cond", phi.Pos(), n.ReachCond(fn, hdr, calls[0].Block()), "i < len(bits)")
 			} else {
@@ -629,7 +629,7 @@ func enclosingLoopBounds(n *Normer, s DeepSite) []*Cond {
 			if idx, _, init, ok := loopIndex(d); ok && init == 0 {
 				old, had := n.Bind[idx]
 				n.Bind[idx] = "i"
-				out = append(out, n.EdgeCond(d, d.Succs[0]))
+				out = append(out, n.LoopCond(d))
 				if had {
 					n.Bind[idx] = old
 				} else {
